@@ -286,6 +286,21 @@ func canonTree(nodes []*html.Node) []any {
 	return out
 }
 
+func referenceParse(src string, document bool) []*html.Node {
+	if !document {
+		return parseFragment(src)
+	}
+	doc, err := html.Parse(strings.NewReader(src))
+	if err != nil {
+		return nil
+	}
+	var out []*html.Node
+	for c := doc.FirstChild; c != nil; c = c.NextSibling {
+		out = append(out, c)
+	}
+	return out
+}
+
 func parseLikeVuego(src string) []*html.Node {
 	ns, _ := vuego.VerifParseTemplateBytes([]byte(src))
 	return ns
@@ -313,8 +328,10 @@ func roundtripCase(src string, viaFile bool) *Case {
 		v.OK, v.Class, v.Detail = false, "roundtrip-render-error", errs
 		return c
 	}
-	want := canonTree(parseLikeVuego(src))
-	got := canonTree(parseLikeVuego(out))
+	// the reference parse is an HTML5 parser used independently of the library's own choice between document and fragment parsing:
+	// a source with an </html> end tag is a document (the documented rule), anything else a fragment in a <body>
+	want := canonTree(referenceParse(src, strings.Contains(src, "</html>")))
+	got := canonTree(referenceParse(out, strings.Contains(src, "</html>")))
 	if !jsonEq(want, got) {
 		v.OK = false
 		v.Class = "roundtrip-differs"
@@ -475,6 +492,11 @@ func runC02(r *Run, replay *Case) {
 		if i%10 == 0 {
 			title := strings.ReplaceAll(srcRcdata[g.r.Intn(len(srcRcdata))], "textarea", "title")
 			src = "<!DOCTYPE html><html><head><title>" + title + "</title></head><body>" + src + "</body></html>"
+		}
+		if i%40 == 0 {
+			// documents whose root elements carry attributes, and documents followed by something after </html>
+			tails := []string{"", "\n", "\n<!-- rendered by vuego -->", "<!-- a --><!-- b -->\n"}
+			src = "<!DOCTYPE html>\n<html lang=\"en\">\n<head><meta charset=\"utf-8\"><title>t &amp; u</title></head>\n<body class=\"home\" data-x=\"1\">" + g.fragment() + "</body>\n</html>" + tails[(i/40)%len(tails)]
 		}
 		r.Add(roundtripCase(src, i%2 == 0))
 	}
